@@ -6,7 +6,7 @@
 export CARGO_NET_OFFLINE=true
 wt=$1; shift
 cd "$wt" || exit 2
-git checkout -q -- . ; git clean -fdq compiler/*/tests compiler/*/src 2>/dev/null
+git reset -q 2>/dev/null; git checkout -q -- . ; git clean -fdq compiler/*/tests compiler/*/src docs 2>/dev/null
 git apply --whitespace=nowarn _out/patch.diff || { echo "$wt: patch does not apply"; exit 2; }
 (cd compiler && cargo build --offline -q 2>/dev/null)
 t=$(cd compiler && cargo test --workspace --no-fail-fast --offline 2>&1 | awk '/^test result:/{ if ($3=="ok.") ok++; else bad++; p+=$4; f+=$6 } END{printf "suites_ok=%d suites_failed=%d passed=%d failed=%d", ok,bad,p,f}')
